@@ -101,6 +101,19 @@ func opsString(b *acmelib.CANIDBuilder) string {
 	return strings.Join(parts, ",")
 }
 
+// errFlag is what is compared with the model's prediction: K (accepted) or E followed by the
+// name of the argument an ArgumentError blames (the code checks from, then length, then opIndex).
+func errFlag(err error) string {
+	if err == nil {
+		return "K"
+	}
+	var ae *acmelib.ArgumentError
+	if errors.As(err, &ae) {
+		return "E" + ae.Name
+	}
+	return "E?"
+}
+
 // applyEdit runs the edit on the implementation; returns whether it was accepted.
 func applyEdit(b *acmelib.CANIDBuilder, e edit) (bool, error) {
 	switch e.c {
@@ -243,11 +256,7 @@ func (s *state) runB(family string, edits []edit, triples []triple) {
 		before := len(b.Operations())
 		resync := false
 		ok, err := applyEdit(b, e)
-		flag := "K"
-		if !ok {
-			flag = "E"
-		}
-		obs = append(obs, flag+"|"+opsString(b))
+		obs = append(obs, errFlag(err)+"|"+opsString(b))
 		// --- property: validation and positional behaviour, against the harness's own mirror
 		switch e.c {
 		case 'U':
@@ -413,12 +422,19 @@ func (o wop) String() string {
 	return o.c
 }
 
+// ids of the sibling message (same interface) and of the second node: the library refuses an
+// operation that would duplicate them, and the model predicts that
+const (
+	sibID   = 0x0ABCDE77
+	node2ID = 0x3C3C3C3D
+)
+
 func (s *state) runW(mid, nid uint32, npool int, ops []wop) {
 	os_ := make([]string, len(ops))
 	for i, o := range ops {
 		os_[i] = o.String()
 	}
-	input := fmt.Sprintf("W;%d:%d;%d;%s", mid, nid, npool, strings.Join(os_, " "))
+	input := fmt.Sprintf("W;%d:%d:%d:%d;%d;%s", mid, nid, sibID, node2ID, npool, strings.Join(os_, " "))
 	s.hist["W/history"]++
 	defer func() {
 		if r := recover(); r != nil {
@@ -434,11 +450,11 @@ func (s *state) runW(mid, nid uint32, npool int, ops []wop) {
 	net := acmelib.NewNetwork("net")
 	// a sibling message on the same interface and a bystander node/interface/message: they make the
 	// remove-all paths remove more than one thing and are checked by the Go predicate only
-	sib := acmelib.NewMessage("msg3", acmelib.MessageID(0x0ABCDE77), 8)
+	sib := acmelib.NewMessage("msg3", acmelib.MessageID(sibID), 8)
 	if err := iface.AddSentMessage(sib); err != nil {
 		panic("harness: " + err.Error())
 	}
-	node2 := acmelib.NewNode("node2", acmelib.NodeID(0x3C3C3C3D), 1)
+	node2 := acmelib.NewNode("node2", acmelib.NodeID(node2ID), 1)
 	iface2 := node2.Interfaces()[0]
 	msg2 := acmelib.NewMessage("msg2", acmelib.MessageID(0x00012345), 8)
 	if err := iface2.AddSentMessage(msg2); err != nil {
@@ -560,6 +576,9 @@ func (s *state) runW(mid, nid uint32, npool int, ops []wop) {
 		flag := "K"
 		if err != nil {
 			flag = "E"
+			if o.c == "Ed" {
+				flag = errFlag(err)
+			}
 			s.hist["wop/"+o.c+"-refused"]++
 		} else {
 			s.hist["wop/"+o.c]++
@@ -1066,10 +1085,53 @@ func generate(s *state, r *rng, thorough bool) {
 						onBus2 = false
 					}
 					ops = append(ops, wop{c: c})
+				} else if riUsed {
+					// the node no longer owns the interface: it is not put on a bus again
+					ops = append(ops, wop{c: "P", v: uint32(r.below(4))})
+					onBus = !onBus
 				} else {
 					ops = append(ops, wop{c: "Ba"})
 				}
 				onBus = !onBus
+			case x == 14 && r.below(3) == 0:
+				// operations the library must REFUSE in this state (the model predicts it), or whose
+				// acceptance makes a later one collide
+				switch r.below(7) {
+				case 0:
+					if attached {
+						ops = append(ops, wop{c: "At"})
+					} else {
+						ops = append(ops, wop{c: "De"})
+					}
+				case 1:
+					if onBus && !riUsed {
+						ops = append(ops, wop{c: "Ba"})
+					} else {
+						ops = append(ops, wop{c: "Br"})
+					}
+				case 2:
+					if inNet {
+						ops = append(ops, wop{c: "Na"})
+					} else {
+						ops = append(ops, wop{c: "Nr"})
+					}
+				case 3:
+					if onBus2 {
+						ops = append(ops, wop{c: "Ba2"})
+					} else {
+						ops = append(ops, wop{c: "Br2"})
+					}
+				case 4:
+					if riUsed {
+						ops = append(ops, wop{c: "Ri"})
+					} else {
+						ops = append(ops, wop{c: "N", v: node2ID})
+					}
+				case 5:
+					ops = append(ops, wop{c: "D", v: sibID})
+				default:
+					ops = append(ops, wop{c: "N", v: node2ID})
+				}
 			case x == 14:
 				if r.below(2) == 0 {
 					if inNet {
@@ -1121,7 +1183,7 @@ func generate(s *state, r *rng, thorough bool) {
 			if !attached {
 				ops = append(ops, wop{c: "At"})
 			}
-			if !onBus {
+			if !onBus && !riUsed {
 				ops = append(ops, wop{c: "Ba"})
 			}
 		}
